@@ -696,6 +696,7 @@ def C10(tier, seed, st):
     rng = random.Random(seed)
     q = tier == "quick"
     check_K(res, random.Random(seed + 17), tier)
+    check_K_singletons(res, None if not q else (seed % 16, 16))
     pairs = []   # (tag, lang, base bytes, variant bytes)
     for lang in LANGS:
         t = gens.table(lang)
@@ -1222,6 +1223,24 @@ def check_K(res, rng, tier):
     return nx
 
 
+def check_K_singletons(res, part=None):
+    """EVERY Unicode scalar value as a one-character string: norm.NFKD.String against the Gallina NFKD
+    (1 112 064 cases, a finite domain enumerated completely; part = (k, n): only the code points c with c mod n = k)"""
+    lines = ["K " + hx(chr(c).encode()) for c in range(0x110000) if not 0xD800 <= c <= 0xDFFF and (part is None or c % part[1] == part[0])]
+    impl = common.run_impl(lines)
+    spec = common.run_model(lines, "spec")
+    bad = 0
+    for ln, i, sp in zip(lines, impl, spec):
+        nf, _, xs = sp.rpartition(" xs=")
+        if i != nf or xs != "1":
+            bad += 1
+            res.corr_break(stream="K", case=ln, impl=i, model=sp, why="library contract LC1 on a single code point: norm.NFKD.String differs from UAX #15 NFKD over the pinned Unicode 15 table")
+    res.evaluations += len(lines)
+    res.count("K/every-code-point", len(lines))
+    res.streams["K-singletons"] = len(lines)
+    res.notes.append("%s: %d Unicode scalar values compared as singletons, %d differences" % ("exhaustive" if part is None else "slice %d of %d" % part, len(lines), bad))
+
+
 def pbk(pw, salt, it=2048, n=64):
     return hashlib.pbkdf2_hmac("sha512", pw, salt, it, n).hex()
 
@@ -1356,6 +1375,8 @@ def C04(tier, seed, st):
     res = Result("C04")
     rng = random.Random(seed)
     check_K(res, rng, tier)
+    if tier != "quick":
+        check_K_singletons(res)
     check_crypto(res, rng, tier)
     run_S(res, s_inputs(rng, tier), "C04")
     run_Q(res, seed_histories(rng, tier == "quick"), lambda op, r, sp: None)
